@@ -85,7 +85,7 @@ WrapFFAcc(s, ps, o, oppss, k, acc, nofast) ==
   IF k > Len(ps) THEN acc
   ELSE WrapFFAcc(s, ps, o, oppss, k + 1,
                  acc \o WrapParaFF(SubSeq(s, ps[k][1], ps[k][2]), ps[k][1] - 1, o,
-                                   (IF o.sep = "uax" THEN oppss[k] ELSE {}), Len(acc), nofast), nofast)
+                                   (IF o.sep \in {"uax", "custom"} THEN oppss[k] ELSE {}), Len(acc), nofast), nofast)
 \* wrap(text, options) with WrapAlgorithm::FirstFit
 WrapFF(s, o, oppss) == WrapFFAcc(s, SplitEndingRanges(s, o.crlf), o, oppss, 1, <<>>, FALSE)
 \* the same through the general path only (what cfg(fuzzing) wrap_single_line_slow_path computes)
